@@ -134,6 +134,11 @@ def run(ctx):
   # the packed root must be the root of the UNPADDED statistic: mask prologue / cast-back shared with the dense routines
   from . import C01
   C01.siblings(ctx)
+  # ... which needs the statistic's own size as padding start in every mode, and the packed root cut back to its own
+  # announced shape (rows [:d], all pd columns) before it is stored
+  from . import C13
+  C13.parallel_lists(ctx)
+  C13.slice_back(ctx)
 
 
 def slot_table(ctx):
